@@ -10,6 +10,7 @@ import (
 	"encoding/json"
 	"fmt"
 	"os"
+	"os/exec"
 	"path/filepath"
 	"sort"
 	"strconv"
@@ -621,11 +622,11 @@ func sweepCases(name string, fix uint64, si int, s seed, sem []string, firstOfDa
 	ins = append(ins, In{Base: si, Kind: "valid"})
 	// truncation at every offset (sampled above a cap); bit patterns at sampled offsets
 	step := 1
-	if maxPos := vstat.Pick(160, 4000); n > maxPos {
+	if maxPos := vstat.Pick(160, 2000); n > maxPos {
 		step = (n + maxPos - 1) / maxPos
 	}
 	fstep := 1
-	if maxPos := vstat.Pick(24, 1200); n > maxPos {
+	if maxPos := vstat.Pick(24, 300); n > maxPos {
 		fstep = (n + maxPos - 1) / maxPos
 	}
 	if !firstOfData {
@@ -648,7 +649,7 @@ func sweepCases(name string, fix uint64, si int, s seed, sem []string, firstOfDa
 		}
 	}
 	paths := mutate.IdxPaths(s.Data, 6, 400)
-	maxOps := vstat.Pick(80, 3000)
+	maxOps := vstat.Pick(80, 1000)
 	if heavy {
 		maxOps = 30
 	}
@@ -671,7 +672,7 @@ func sweepCases(name string, fix uint64, si int, s seed, sem []string, firstOfDa
 	}
 	ins = append(ins, opIns...)
 	for _, k := range sem {
-		na := vstat.Pick(9, 36)
+		na := vstat.Pick(9, 24)
 		if heavy {
 			na = 5
 		}
@@ -692,6 +693,27 @@ func sweepCases(name string, fix uint64, si int, s seed, sem []string, firstOfDa
 func TestReplay(t *testing.T) {
 	recordAs = "TestReplay"
 	replayMode = true
+	if os.Getenv("VERIF_REPLAY") != "" && os.Getenv("C11_REPLAY_CHILD") == "" {
+		// A saved case may kill the process (stack overflow, out of memory): replay it in a child so
+		// that its death is reported as a failed replay instead of leaving no verdict.
+		cmd := exec.Command(os.Args[0], "-test.run", "^TestReplay$", "-test.v", "-test.timeout", "560s")
+		cmd.Env = append(os.Environ(), "C11_REPLAY_CHILD=1")
+		out, err := cmd.CombinedOutput()
+		text := string(out)
+		if len(text) > 6000 {
+			text = text[len(text)-6000:]
+		}
+		fmt.Println(text)
+		switch {
+		case strings.Contains(string(out), "REPLAY-FAILED"):
+			t.Fatalf("replayed case violates %s", prop)
+		case strings.Contains(string(out), "REPLAY-PASSED") && err == nil:
+			return
+		default:
+			fmt.Printf("REPLAY-FAILED property=%s test=TestReplay (the replaying process died: %v)\n", prop, err)
+			t.Fatalf("replayed case kills the process: %v", err)
+		}
+	}
 	if p := os.Getenv("VERIF_REPLAY"); p != "" {
 		if b, err := os.ReadFile(p); err == nil && strings.HasPrefix(string(b), "go test fuzz v1") {
 			replayFuzzFile(t, p, b)
